@@ -18,6 +18,8 @@ pub struct Gen {
     pub rng: StdRng,
     pub classes: Cls,
     pub vals: u8,
+    /// probability that a call gets a panic injected into one of its first callbacks
+    pub inject: f64,
 }
 
 impl Gen {
@@ -296,7 +298,12 @@ fn run_map<const N: usize>(g: &mut Gen, steps: usize, out: &mut impl Write) -> (
         }
         let s: Vec<Value> = pre.iter().map(|(k, v)| json!([k.class, k.ver, v.content])).collect();
         ledger::mark();
+        // now and then user code panics at one callback of the call (C04 along a long history)
+        let inj: u64 = if g.rng.gen_bool(g.inject) { g.rng.gen_range(1..7) } else { 0 };
+        ledger::with(|l| l.panic_at = inj);
         let ret = no_nulls(exec_map(&mut cage, &op, &mut ctx));
+        ledger::with(|l| l.panic_at = 0);
+        let injected = ctx.injected;
         if ctx.panicked {
             panics += 1;
         }
@@ -309,7 +316,7 @@ fn run_map<const N: usize>(g: &mut Gen, steps: usize, out: &mut impl Write) -> (
         let mut viol: Vec<String> = vec![];
         if !cage.intact() || len > N {
             viol.push("memory outside the container was written or len() exceeds capacity()".into());
-            writeln!(out, "{}", json!({"n": N, "mode": "map", "s": s, "o": op, "r": ret, "p": [], "dk": [], "dv": [], "lk": [], "lv": [], "len": len, "empty": false, "viol": viol})).unwrap();
+            writeln!(out, "{}", json!({"n": N, "mode": "map", "s": s, "o": op, "r": ret, "p": [], "dk": [], "dv": [], "lk": [], "lv": [], "len": len, "empty": false, "viol": viol, "injected": injected})).unwrap();
             std::mem::forget(cage);
             return (events + 1, panics);
         }
@@ -332,7 +339,7 @@ fn run_map<const N: usize>(g: &mut Gen, steps: usize, out: &mut impl Write) -> (
             out,
             "{}",
             json!({"n": N, "mode": "map", "s": s, "o": op, "r": ret, "p": p, "dk": dk, "dv": dv, "lk": lk, "lv": lv,
-                   "len": len, "empty": cage.m.is_empty(), "viol": viol})
+                   "len": len, "empty": cage.m.is_empty(), "viol": viol, "injected": injected})
         )
         .unwrap();
         events += 1;
@@ -374,7 +381,12 @@ fn run_set<const N: usize>(g: &mut Gen, steps: usize, out: &mut impl Write) -> (
         }
         let s: Vec<Value> = pre.iter().map(|k| json!([k.class, k.ver, 0])).collect();
         ledger::mark();
+        // now and then user code panics at one callback of the call (C04 along a long history)
+        let inj: u64 = if g.rng.gen_bool(g.inject) { g.rng.gen_range(1..7) } else { 0 };
+        ledger::with(|l| l.panic_at = inj);
         let ret = no_nulls(exec_set(&mut cage, &op, &mut ctx));
+        ledger::with(|l| l.panic_at = 0);
+        let injected = ctx.injected;
         if ctx.panicked {
             panics += 1;
         }
@@ -382,7 +394,7 @@ fn run_set<const N: usize>(g: &mut Gen, steps: usize, out: &mut impl Write) -> (
         let mut viol: Vec<String> = vec![];
         if !cage.intact() || len > N {
             viol.push("memory outside the container was written or len() exceeds capacity()".into());
-            writeln!(out, "{}", json!({"n": N, "mode": "set", "s": s, "o": op, "r": ret, "p": [], "dk": [], "dv": [], "lk": [], "lv": [], "len": len, "empty": false, "viol": viol})).unwrap();
+            writeln!(out, "{}", json!({"n": N, "mode": "set", "s": s, "o": op, "r": ret, "p": [], "dk": [], "dv": [], "lk": [], "lv": [], "len": len, "empty": false, "viol": viol, "injected": injected})).unwrap();
             std::mem::forget(cage);
             return (events + 1, panics);
         }
@@ -403,7 +415,7 @@ fn run_set<const N: usize>(g: &mut Gen, steps: usize, out: &mut impl Write) -> (
             out,
             "{}",
             json!({"n": N, "mode": "set", "s": s, "o": op, "r": ret, "p": p, "dk": dk, "dv": [], "lk": lk, "lv": [],
-                   "len": len, "empty": cage.m.is_empty(), "viol": viol})
+                   "len": len, "empty": cage.m.is_empty(), "viol": viol, "injected": injected})
         )
         .unwrap();
         events += 1;
@@ -414,9 +426,9 @@ fn run_set<const N: usize>(g: &mut Gen, steps: usize, out: &mut impl Write) -> (
 }
 
 /// `runs` histories of `steps` calls each, capacities drawn from `caps`
-pub fn record(path: &str, set_mode: bool, seed: u64, runs: usize, steps: usize, caps: &[usize], classes: Cls) -> Value {
+pub fn record(path: &str, set_mode: bool, seed: u64, runs: usize, steps: usize, caps: &[usize], classes: Cls, inject: f64) -> Value {
     let mut out = std::io::BufWriter::new(std::fs::File::create(path).expect("trace file"));
-    let mut g = Gen { rng: StdRng::seed_from_u64(seed), classes, vals: 3 };
+    let mut g = Gen { rng: StdRng::seed_from_u64(seed), classes, vals: 3, inject };
     let (mut events, mut panics) = (0u64, 0u64);
     for r in 0..runs {
         let n = caps[r % caps.len()];
